@@ -33,6 +33,19 @@ def _read_relationship(element):
     relationship = Relationship(
         relationship_id=element.attributes["Id"],
         target=element.attributes["Target"],
-        type=element.attributes["Type"],
+        type=_normalise_type(element.attributes["Type"]),
     )
     return relationship
+
+
+_transitional_type_prefix = "http://schemas.openxmlformats.org/officeDocument/2006/relationships/"
+_strict_type_prefix = "http://purl.oclc.org/ooxml/officeDocument/relationships/"
+
+
+def _normalise_type(relationship_type):
+    # Documents saved as Strict Open XML use different URIs for the same
+    # relationship types: read them as their transitional equivalents.
+    if relationship_type.startswith(_strict_type_prefix):
+        return _transitional_type_prefix + relationship_type[len(_strict_type_prefix):]
+    else:
+        return relationship_type
